@@ -41,16 +41,16 @@ func newSeqSystem(kind string) *seqSystem {
 		mk := func() ([]caldav.Calendar, []caldav.CalendarObject) {
 			return []caldav.Calendar{{Path: l.Coll1, Name: "k1"}, {Path: l.Coll2, Name: "k2"}}, []caldav.CalendarObject{{Path: l.Obj + ".ics", ETag: "e1", Data: harness.SampleCalendar("1", "s")}}
 		}
-		b := &harness.CalBackend{Principal: l.Principal, HomeSet: l.HomeSet}
+		b := &harness.CalBackend{Principal: l.Principal, HomeSet: l.HomeSet, Users: map[string]harness.UserPaths{"v": {Principal: "/v/", HomeSet: "/v/c/"}}}
 		b.Calendars, b.Objects = mk()
-		return &seqSystem{h: &caldav.Handler{Backend: b}, calls: b.Snapshot, reset: func() { b.Calendars, b.Objects = mk(); b.Reset() }}
+		return &seqSystem{h: harness.UserFromHeader(&caldav.Handler{Backend: b}), calls: b.Snapshot, reset: func() { b.Calendars, b.Objects = mk(); b.Reset() }}
 	case "carddav":
 		mk := func() ([]carddav.AddressBook, []carddav.AddressObject) {
 			return []carddav.AddressBook{{Path: l.Coll1, Name: "k1"}, {Path: l.Coll2, Name: "k2"}}, []carddav.AddressObject{{Path: l.Obj + ".vcf", ETag: "e1", Card: harness.SampleCard("s")}}
 		}
-		b := &harness.CardBackend{Principal: l.Principal, HomeSet: l.HomeSet}
+		b := &harness.CardBackend{Principal: l.Principal, HomeSet: l.HomeSet, Users: map[string]harness.UserPaths{"v": {Principal: "/v/", HomeSet: "/v/c/"}}}
 		b.Books, b.Objects = mk()
-		return &seqSystem{h: &carddav.Handler{Backend: b}, calls: b.Snapshot, reset: func() { b.Books, b.Objects = mk(); b.Reset() }}
+		return &seqSystem{h: harness.UserFromHeader(&carddav.Handler{Backend: b}), calls: b.Snapshot, reset: func() { b.Books, b.Objects = mk(); b.Reset() }}
 	}
 	h, _ := c13Handler("principal")
 	return &seqSystem{h: h, calls: func() []harness.Call { return nil }, reset: func() {}}
@@ -169,6 +169,23 @@ func SeqHistories(r *engine.Run, quick bool, reverse func() (map[string]string, 
 		if want := solo[fmt.Sprintf("%s/%d", p.kind, p.j)]; got != want {
 			s.Violate(engine.Violation{Sig: fmt.Sprintf("C18/sequential-history/%s/%s-after-%s", p.kind, second.Req.Method, first.Req.Method), Clause: "sequential-history", Index: int64(1)<<58 + int64(n), Kind: "C18-seq",
 				Case: map[string]interface{}{"handler": p.kind, "first": first.Req, "second": second.Req}, Expected: trunc(want, 400), Observed: trunc(got, 400)})
+		}
+		if p.kind == "caldav" || p.kind == "carddav" {
+			// the same history with the FIRST request made by another authenticated user: what the handler
+			// learnt while serving one user must not leak into the answer to the next
+			sys2 := newSeqSystem(p.kind)
+			q := cloneReq(first.Req)
+			q.Header["X-User"] = "v"
+			harness.Serve(sys2.h, q)
+			sys2.reset()
+			got2 := seqObserve(sys2, second.Req)
+			s.Transition()
+			s.Transition()
+			s.Clause("sequential history across users: a request after another user's request behaves as when run alone")
+			if want := solo[fmt.Sprintf("%s/%d", p.kind, p.j)]; got2 != want {
+				s.Violate(engine.Violation{Sig: fmt.Sprintf("C18/sequential-history/%s/%s-after-%s-by-another-user", p.kind, second.Req.Method, first.Req.Method), Clause: "sequential-history", Index: int64(1)<<59 + int64(n), Kind: "C18-seq",
+					Case: map[string]interface{}{"handler": p.kind, "first": q, "second": second.Req}, Expected: trunc(want, 400), Observed: trunc(got2, 400)})
+			}
 		}
 		if n == 4242 {
 			s.Sample(map[string]interface{}{"part": "sequential history", "handler": p.kind, "first": first.Req.String(), "second": second.Req.String()})
